@@ -126,54 +126,56 @@ func runC12(c *Ctx) {
 			if mk == nil {
 				c.bad("R12.1", construct, "-", "the rpc_method tag is no longer consulted")
 			} else {
-				// the name field: string field of the rpcFunc literal whose stored value has the tag among its leaves
+				// the name field: a string field some store fills with a value that has the tag among its origins
 				var nameStore *ssa.Store
 				var nameField *types.Var
-				allInstrs(mk, func(in ssa.Instruction) {
-					st, ok := in.(*ssa.Store)
-					if !ok {
-						return
+				isTag := func(o apath) bool {
+					if len(o.Fields) != 0 {
+						return false
 					}
-					fa, ok := st.Addr.(*ssa.FieldAddr)
-					if !ok {
-						return
+					if ex, ok := o.Root.(*ssa.Extract); ok && ex.Tuple == ssa.Value(tagLookup) {
+						return true
 					}
-					if b, ok := fieldOfAddr(fa).Type().Underlying().(*types.Basic); !ok || b.Kind() != types.String {
-						return
+					return o.Root == ssa.Value(tagLookup)
+				}
+				for _, fn := range p.Funcs {
+					if pkgOf(fn) != p.Root.Pkg {
+						continue
 					}
-					var lv []ssa.Value
-					leaves(st.Val, map[ssa.Value]bool{}, &lv)
-					for _, l := range lv {
-						if ex, ok := l.(*ssa.Extract); ok && ex.Tuple == ssa.Value(tagLookup) {
+					allInstrsRaw(fn, func(in ssa.Instruction) {
+						st, ok := in.(*ssa.Store)
+						if !ok {
+							return
+						}
+						fa, ok := st.Addr.(*ssa.FieldAddr)
+						if !ok {
+							return
+						}
+						if b, ok := fieldOfAddr(fa).Type().Underlying().(*types.Basic); !ok || b.Kind() != types.String {
+							return
+						}
+						if c.someOrigin(st.Val, isTag) {
 							nameStore, nameField = st, fieldOfAddr(fa)
 						}
-						if l == ssa.Value(tagLookup) {
-							nameStore, nameField = st, fieldOfAddr(fa)
-						}
-					}
-				})
+					})
+				}
 				if nameStore == nil {
 					c.bad("R12.1", construct, p.pos(mk.Pos()), "the rpc_method tag value does not reach the method name the function sends")
 				} else {
-					var lv []ssa.Value
-					leaves(nameStore.Val, map[ssa.Value]bool{}, &lv)
 					okAll, sawFmt := true, false
-					for _, l := range lv {
-						if ex, ok := l.(*ssa.Extract); ok && ex.Tuple == ssa.Value(tagLookup) {
+					for _, o := range c.origins(nameStore.Val) {
+						if isTag(o) {
 							continue
 						}
-						if l == ssa.Value(tagLookup) {
-							continue
-						}
-						if call, ok := l.(*ssa.Call); ok {
-							if _, isF := loadsField(call.Common().Value, cFmt); isF && len(call.Common().Args) == 2 {
+						if call, ok := o.Root.(*ssa.Call); ok && len(o.Fields) == 0 {
+							if c.fieldVal(call.Common().Value, cFmt) && len(call.Common().Args) == 2 {
 								sawFmt = true
 								// namespace = client's namespace field; method = struct field name
 								continue
 							}
 						}
 						okAll = false
-						c.bad("R12.1", construct, c.ipos(nameStore), fmt.Sprintf("the method name can originate from %T, neither the configured formatter nor the rpc_method tag", l))
+						c.bad("R12.1", construct, c.ipos(nameStore), fmt.Sprintf("the method name can originate from %T, neither the configured formatter nor the rpc_method tag", o.Root))
 					}
 					if okAll && !sawFmt {
 						okAll = false
@@ -185,19 +187,21 @@ func runC12(c *Ctx) {
 					// the wire request's method is that field
 					if r.FnCall != nil && r.FReqMethod != nil {
 						n := 0
-						allInstrs(r.FnCall, func(in ssa.Instruction) {
-							st, ok := in.(*ssa.Store)
-							if !ok {
-								return
-							}
-							fa, ok := st.Addr.(*ssa.FieldAddr)
-							if !ok || fieldOfAddr(fa) != r.FReqMethod {
-								return
-							}
-							n++
-							_, isName := loadsField(st.Val, nameField)
-							c.check(isName, "R12.1", fmt.Sprintf("%s: method member of the outgoing request", fname(r.FnCall)), c.ipos(st), "the function's resolved name", "the request does not carry the name resolved for this client function")
-						})
+						for _, g := range c.region(r.FnCall) {
+							allInstrsRaw(g, func(in ssa.Instruction) {
+								st, ok := in.(*ssa.Store)
+								if !ok {
+									return
+								}
+								fa, ok := st.Addr.(*ssa.FieldAddr)
+								if !ok || fieldOfAddr(fa) != r.FReqMethod {
+									return
+								}
+								n++
+								isName := c.fieldVal(st.Val, nameField)
+								c.check(isName, "R12.1", fmt.Sprintf("%s: method member of the outgoing request", fname(g)), c.ipos(st), "the function's resolved name", "the request does not carry the name resolved for this client function")
+							})
+						}
 						if n == 0 {
 							c.und("R12.1", "outgoing request method", "-", "no store to the method member of the request found in the call path")
 						}
